@@ -132,6 +132,13 @@ class Generator(SchemaVisitor[Any]):
                 if is_ellipsis(elem):
                     continue
                 elements.append(elem.__accept__(self, **kwargs))
+            if (schema.props.len is not Nil) and (len(elements) < schema.props.len):
+                # `...` stands for arbitrary elements, pad up to the declared length
+                padding = [None] * (schema.props.len - len(elements))
+                if is_ellipsis(schema.props.elements[-1]):
+                    elements = elements + padding
+                else:
+                    elements = padding + elements
             return elements
 
         is_length_specified = False
